@@ -415,6 +415,15 @@ func (x *Exec) gridBuild(t gridTarget, vs []entView, mk func(string) GenOp, fill
 		o := mk("KillBatch")
 		o.Mode = "fn"
 		o.Flt = flt(T, nil)
+		if len(rels) > 0 && x.rng.Intn(3) == 0 {
+			// an unregistered filter with a target fixed in the filter (FilterN.Relations): the target of one of the
+			// entities that have the tuple, so that the selection is a proper part of them
+			v := pick(having)
+			c := rels[x.rng.Intn(len(rels))]
+			if t := x.ordOf(x.readTarget(x.ent(v.ord), c)); t >= 0 {
+				o.Flt.Ft[c] = t
+			}
+		}
 		return o, true
 	case "RegF":
 		for id := 1; id <= 4; id++ {
@@ -422,6 +431,12 @@ func (x *Exec) gridBuild(t gridTarget, vs []entView, mk func(string) GenOp, fill
 				o := mk("RegF")
 				o.F = id
 				o.Flt = flt(T, nil)
+				// half of the registered filters of a tuple with relation components fix their targets in the filter
+				for _, c := range rels {
+					if x.rng.Intn(2) == 0 {
+						o.Flt.Ft[c] = x.pickTarget(vs)
+					}
+				}
 				return o, true
 			}
 		}
